@@ -144,14 +144,19 @@ where T: TreeKey + TreeSerialize + TreeDeserializeOwned + TreeAny + Snap {
     }
 }
 
-fn item_obs<N>(it: Option<Result<(N, Node), usize>>, f: &dyn Fn(&N) -> Obs) -> Obs {
+fn item_obs<N>(it: Option<Result<(N, Node), usize>>, f: &dyn Fn(&N) -> Obs, res: Option<&dyn Fn(&N, &Node) -> Obs>) -> Obs {
     match it {
         None => l(vec![z(2)]),
-        Some(Ok((n, node))) => l(vec![z(0), f(&n), z(node.depth()), b(node.is_leaf())]),
+        Some(Ok((n, node))) => {
+            let mut v = vec![z(0), f(&n), z(node.depth()), b(node.is_leaf())];
+            if let Some(r) = res { v.push(r(&n, &node)); }
+            l(v)
+        }
         Some(Err(d)) => l(vec![z(1), z(d)]),
     }
 }
-fn drive<T: TreeKey, N: Transcode + Default, const D: usize>(op: &Value, f: &dyn Fn(&N) -> Obs) -> Obs {
+fn drive<T: TreeKey, N: Transcode + Default, const D: usize>(op: &Value, f: &dyn Fn(&N) -> Obs, res: &dyn Fn(&N, &Node) -> Obs) -> Obs {
+    let res: Option<&dyn Fn(&N, &Node) -> Obs> = if op["resolve"].as_bool().unwrap_or(false) { Some(res) } else { None };
     let it: NodeIter<T, N, D> = T::nodes::<N, D>();
     let maxn = op["max"].as_u64().unwrap_or(2000) as usize;
     let it = if op["root"].is_null() { Ok(it) } else {
@@ -170,34 +175,38 @@ fn drive<T: TreeKey, N: Transcode + Default, const D: usize>(op: &Value, f: &dyn
             exact.push(z(e.len()));
             let x = e.next();
             let done = x.is_none();
-            items.push(item_obs(x, f));
+            items.push(item_obs(x, f, res));
             if done || items.len() > maxn { break; }
         }
-        for _ in 0..2 { items.push(item_obs(e.next(), f)); exact.push(z(e.len())); }
+        for _ in 0..2 { items.push(item_obs(e.next(), f, res)); exact.push(z(e.len())); }
     } else {
         loop {
             let x = it.next();
             let done = x.is_none();
-            items.push(item_obs(x, f));
+            items.push(item_obs(x, f, res));
             if done || items.len() > maxn { break; }
         }
-        for _ in 0..2 { items.push(item_obs(it.next(), f)); }
+        for _ in 0..2 { items.push(item_obs(it.next(), f, res)); }
     }
     l(vec![z(0), l(items), l(exact)])
+}
+fn reres<T: TreeKey, K: miniconf::IntoKeys>(k: K) -> Obs {
+    let r = T::transcode::<(), K>(k).map(|(_, n)| n);
+    tres_obs(&r, node_obs)
 }
 /// node iteration: op = {"tg": {...}, "root": keys?, "exact": bool}
 pub fn iter_op<T: TreeKey, const D: usize>(op: &Value) -> Obs {
     let tg = &op["tg"];
     CAP.with(|c| c.set(tg["cap"].as_u64().unwrap_or(2000) as usize));
     match tg["t"].as_str().unwrap() {
-        "unit" => drive::<T, (), D>(op, &|_| l(vec![])),
-        "idx" => drive::<T, TI, D>(op, &|n| l(n.0.iter().map(|x| z(*x)).collect())),
-        "idxd" => drive::<T, miniconf::Indices<[usize; D]>, D>(op, &|n| l(n.0.iter().map(|x| z(*x)).collect())),
-        "json" => drive::<T, TJ, D>(op, &|n| s(&n.0 .0.s)),
-        "packed" => drive::<T, Packed, D>(op, &|n| z(n.get())),
+        "unit" => drive::<T, (), D>(op, &|_| l(vec![]), &|_, _| l(vec![])),
+        "idx" => drive::<T, TI, D>(op, &|n| l(n.0.iter().map(|x| z(*x)).collect()), &|n, node| reres::<T, _>(n.0[..node.depth().min(n.0.len())].iter())),
+        "idxd" => drive::<T, miniconf::Indices<[usize; D]>, D>(op, &|n| l(n.0.iter().map(|x| z(*x)).collect()), &|n, node| reres::<T, _>(n.0[..node.depth().min(D)].iter())),
+        "json" => drive::<T, TJ, D>(op, &|n| s(&n.0 .0.s), &|n, _| { let jp = miniconf::JsonPath(n.0 .0.s.as_str()); reres::<T, _>(&jp) }),
+        "packed" => drive::<T, Packed, D>(op, &|n| z(n.get()), &|n, _| reres::<T, _>(*n)),
         "path" => match char::from_u32(tg["sep"].as_u64().unwrap() as u32).unwrap() {
-            '/' => drive::<T, TP<'/'>, D>(op, &|n| s(&n.0 .0.s)),
-            'é' => drive::<T, TP<'é'>, D>(op, &|n| s(&n.0 .0.s)),
+            '/' => drive::<T, TP<'/'>, D>(op, &|n| s(&n.0 .0.s), &|n, _| reres::<T, _>(miniconf::Path::<&str, '/'>(n.0 .0.s.as_str()))),
+            'é' => drive::<T, TP<'é'>, D>(op, &|n| s(&n.0 .0.s), &|n, _| reres::<T, _>(miniconf::Path::<&str, 'é'>(n.0 .0.s.as_str()))),
             _ => panic!("sep"),
         },
         other => panic!("iter target {other}"),
